@@ -17,10 +17,13 @@ from .containers import msort
 PROPERTY = "C05"
 
 
-def snap(h):
-    return dict(weighted=h.is_weighted(), nodes={repr(n): _copy.deepcopy(h.get_node_metadata(n)) for n in h.get_nodes()},
-                edges={repr(_norm(e)): [h.get_weight(e), _copy.deepcopy(h.get_edge_metadata(e))] for e in h.get_edges()},
-                hm=_copy.deepcopy(h.get_hypergraph_metadata()))
+def snap(h, incidences=False):
+    d = dict(weighted=h.is_weighted(), nodes={repr(n): _copy.deepcopy(h.get_node_metadata(n)) for n in h.get_nodes()},
+             edges={repr(_norm(e)): [h.get_weight(e), _copy.deepcopy(h.get_edge_metadata(e))] for e in h.get_edges()},
+             hm=_copy.deepcopy(h.get_hypergraph_metadata()))
+    if incidences:     # what get_incidence_metadata answers (source and copy only: an extraction's incidence metadata is not spoken of)
+        d["incidences"] = {repr(k): _copy.deepcopy(v) for k, v in h.get_all_incidences_metadata().items()}
+    return d
 
 
 def _norm(e):
@@ -55,6 +58,12 @@ def build(content):
             h.add_edge(e, metadata=_copy.deepcopy(md))
     if ghost is not None:
         h.remove_node(ghost)
+    # incidence metadata on the first two incidences of the first hyperedge (an observable of the source that copy() must carry over)
+    for e, w, md in content["edges"][:1]:
+        key = (tuple(sorted(e[0], key=repr)), tuple(sorted(e[1], key=repr))) if content["cls"] == "D" else tuple(sorted(e, key=repr))
+        members = (list(e[0]) + list(e[1])) if content["cls"] == "D" else list(e)
+        for i, n in enumerate(members[:2]):
+            h.set_incidence_metadata(key, n, {"role": i, "tags": [repr(n)]})
     return h
 
 
@@ -122,7 +131,7 @@ def components(content):
 def run_content(ctx, content):
     fnp = "Hypergraph" if content["cls"] == "H" else "DirectedHypergraph"
     h = build(content)
-    before = snap(h)
+    before = snap(h, True)
     V = [n for n, _ in content["nodes"]]
     allsizes = sorted({esize(content, e) for e, _, _ in content["edges"]} | {1, 2})
 
@@ -139,6 +148,11 @@ def run_content(ctx, content):
         for r in range(len(V) + 1):
             for sub in itertools.combinations(V, r):
                 run(["subhypergraph", list(sub)], lambda sub=sub: expect(content, lambda e: set(e) <= set(sub), sub), lambda sub=sub: h.subhypergraph(list(sub)))
+        # a node listed more than once selects the same node subset: the same hyperedges with their original weights (once)
+        for sub in [tuple(V) + tuple(V[:1]), tuple(V[:2]) + tuple(V[:2]), tuple(V[-1:]) + tuple(V) + tuple(V[-1:])]:
+            if sub:
+                run(["subhypergraph", list(sub)], lambda sub=sub: expect(content, lambda e: set(e) <= set(sub), sorted(set(sub), key=repr)),
+                    lambda sub=sub: h.subhypergraph(list(sub)))
         for r in range(0, len(allsizes) + 1):
             for ss in itertools.combinations(allsizes, r):
                 for keep in (True, False):
@@ -193,25 +207,25 @@ def run_content(ctx, content):
                             cov |= enodes(content, e)
                     return expect(content, ke, V if iso else sorted(cov, key=repr))
                 run(["get_edges", ff, iso], exp, lambda ff=ff, iso=iso: h.get_edges(subhypergraph=True, keep_isolated_nodes=iso, **ff))
-    after = snap(h)
+    after = snap(h, True)
     ctx.check(_eq(before, after), f"{fnp}.extraction", "the extraction does not change the source", dict(content=content), expected=before, observed=after,
               key=f"{fnp}:extraction changes the source", replay=dict(content=content, call=["source"]))
     # copy: equal, and independent under later mutation of either side
     c = h.copy()
-    ctx.check(_eq(before, snap(c)) and type(c) is type(h), f"{fnp}.copy", "copy() returns an equal hypergraph", dict(content=content), expected=before, observed=snap(c),
+    ctx.check(_eq(before, snap(c, True)) and type(c) is type(h), f"{fnp}.copy", "copy() returns an equal hypergraph", dict(content=content), expected=before, observed=snap(c, True),
               key=f"{fnp}.copy:not equal", replay=dict(content=content, call=["copy"]))
     for side in (0, 1):
         a, b = (h.copy(), None)
         orig = h.copy()
         a, b = (orig, orig.copy())
         tgt, other = (a, b) if side == 0 else (b, a)
-        ref = snap(other)
+        ref = snap(other, True)
         for mut in mutations(content):
             try:
                 mut(tgt)
             except Exception:   # noqa: BLE001
                 pass
-        ctx.check(_eq(ref, snap(other)), f"{fnp}.copy", "mutating one of original/copy does not affect the other", dict(content=content, mutated="original" if side == 0 else "copy"),
+        ctx.check(_eq(ref, snap(other, True)), f"{fnp}.copy", "mutating one of original/copy does not affect the other", dict(content=content, mutated="original" if side == 0 else "copy"),
                   expected=ref, observed=snap(other), key=f"{fnp}.copy:shares state", replay=dict(content=content, call=["copy-independence", side]))
     ctx.case(content, nontrivial=bool(content["edges"]))
 
@@ -221,6 +235,11 @@ def mutations(content):
     newe = ((0,), (9,)) if D else (0, 9)
     ms = [lambda x: x.add_node(8, {"z": 1}), lambda x: x.add_edge(newe, metadata={"q": 1}),
           lambda x: x.set_hypergraph_metadata({"changed": True})]
+    for e, _, _ in content["edges"][:1]:
+        key = (tuple(sorted(e[0], key=repr)), tuple(sorted(e[1], key=repr))) if D else tuple(sorted(e, key=repr))
+        n0 = (list(e[0]) + list(e[1]))[0] if D else list(e)[0]
+        ms.append(lambda x, key=key, n0=n0: x.get_incidence_metadata(key, n0).update(touched=True))
+        ms.append(lambda x, key=key, n0=n0: x.set_incidence_metadata(key, n0, {"replaced": True}))
     for n, _ in content["nodes"][:2]:
         ms.append(lambda x, n=n: x.set_attr_to_node_metadata(n, "mut", 1))
         ms.append(lambda x, n=n: x.set_node_metadata(n, {"replaced": 1}))
